@@ -579,3 +579,51 @@ def variable_operand_provenance(rep, w, tab):
             ok_all &= r.check(roots_ok, '%s -> %s passes the (opcode, operand) pair of one resolve_variable result' % (g.path.replace(P_, ''), callee.rsplit('::', 1)[-1]),
                               'opcode and operand passed to %s do not come from the same resolve_variable result' % callee.rsplit('::', 1)[-1], g.loc(t.get('sp')))
     return ok_all
+
+
+def narrow_overflows(w, f, tab):
+    """[(op, result interval, type, span)] for overflow-checked arithmetic on u8/u16/i8/i16 in f whose result may leave the type"""
+    it = Interp(w, f, tab)
+    it.run()
+    out = []
+    for (bi, si), (op, a, b, res, sp, r) in sorted(it.ovf.items()):
+        dl = f.blocks[bi]['s'][si]['d']['l']
+        ts = f.crate.tstr(f.local_ty(dl))
+        for nt in ('u8', 'u16', 'i8', 'i16'):
+            if ts.startswith('(' + nt + ','):
+                lo, hi = TYPE_RANGE[nt]
+                if res[1] > hi or res[0] < lo:
+                    out.append((op, res, nt, sp))
+    return out
+
+
+def b4n(rep, w):
+    """the counters the compiler keeps in sub-word types (or will keep, after a "the operand is one byte anyway" change) must not be able to
+    leave their type: in checked builds the compiler panics, in optimised builds the count wraps and the emitted code is garbage"""
+    from facts import Crate, Fn
+    c = w.yarel
+    tab = {e['field']: e for e in c01.table('c04_field_bounds.json')}
+    r = rep.rule('B4n', 'no u8/u16 arithmetic in the compiler can overflow its type on an error-free path', floor=1)
+    # positive control: the detector must flag `x: u8; x + 1` on a hand-made body (the rule has no instance on a healthy tree)
+    u8 = next((i for i, t in enumerate(c.types) if t.get('s') == 'u8'), None)
+    pair = next((i for i, t in enumerate(c.types) if t.get('s') == '(u8, bool)'), None)
+    if u8 is None:
+        raise Broken('C04', 'anchor', 'type u8 not found in the type table')
+    if pair is None:
+        c.types.append({'k': 'tuple', 'a': [u8], 's': '(u8, bool)'})
+        pair = len(c.types) - 1
+    tmpl = next(iter(f for f in c.fns.values() if f.file.endswith('compiler.rs')))
+    raw = {'path': 'control::narrow_add', 'kind': 'Fn', 'argc': 1, 'file': tmpl.raw['file'], 'line': 0,
+           'locals': [{'t': u8}, {'t': u8}, {'t': pair}],
+           'blocks': [{'s': [{'d': {'l': 2}, 'r': {'rv': 'bin', 'op': 'AddWithOverflow', 'a': {'c': {'l': 1}}, 'b': {'k': {'t': u8, 'v': 1}}}, 'sp': 0},
+                             {'d': {'l': 0}, 'r': {'rv': 'use', 'o': {'m': {'l': 2, 'p': [{'f': 0, 'n': '0', 't': u8}], 't': u8}}}, 'sp': 0}],
+                       't': {'t': 'return', 'sp': 0}}]}
+    ctl = narrow_overflows(w, Fn(c, raw), tab)
+    r.check(len(ctl) == 1, 'control: `x: u8; x + 1` is recognised as able to overflow', 'the detector no longer flags the hand-made control body (%s)' % ctl)
+    for f in sorted(c.fns.values(), key=lambda x: x.path):
+        if not f.file.endswith(('compiler.rs', 'scanner.rs')):
+            continue
+        for (op, res, nt, sp) in narrow_overflows(w, f, tab):
+            r.bad('%s / %s on %s' % (f.path.replace(P_, ''), op.replace('WithOverflow', ''), nt),
+                  'the result can reach %s but the counter is a %s: the checked build panics inside the compiler, the optimised build wraps and emits code for the '
+                  'wrapped count' % (res[1] if res[1] < INF else 'any value', nt), f.loc(sp))
